@@ -1,6 +1,7 @@
 use std::path::Path;
 use std::sync::Mutex;
 
+use crate::baseline::Baseline;
 use crate::cache::Cache;
 use crate::checker::{CheckResult, Checker, ThresholdChecker};
 use crate::counter::LineStats;
@@ -40,6 +41,22 @@ impl CheckFileResult {
             Self::Success { check_result, .. } => check_result.is_failed(),
             Self::Skipped(_) | Self::Error(_) => false,
         }
+    }
+
+    /// Returns true if this result is a failure that the baseline does not grandfather.
+    ///
+    /// `fail_fast` mode stops on these only: a failure the baseline already contains does
+    /// not fail the run, so stopping there would leave new violations behind it unevaluated.
+    #[must_use]
+    pub fn is_new_failure(&self, baseline: Option<&Baseline>) -> bool {
+        let Self::Success { check_result, .. } = self else {
+            return false;
+        };
+        self.is_failure()
+            && !baseline.is_some_and(|b| {
+                let key = check_result.path().to_string_lossy().replace('\\', "/");
+                b.contains(&key)
+            })
     }
 }
 
